@@ -4,17 +4,7 @@ import json, os, subprocess
 V = os.path.dirname(os.path.dirname(os.path.abspath(__file__)))
 
 # id -> (technique, level text, level note, design ref)
-CLAIMED = {
- "C14": ("bounded-exhaustive enumeration of filter configurations x endpoints on the real FilterConfig (explicit-state, reference-model oracle)",
-         "Every filter configuration of a 107k-element alphabet (mode x port/address/subnet sub-filters x sides x boundary ranges) is evaluated on every same-family endpoint pair and port pair of a boundary alphabet, on each of the three filter.rs copies, against the boolean function written from the statement; the whole finite product is enumerated, nothing is sampled.",
-         "Trusts the 40-line reference function; scope is the stated alphabets (ports incl. 0/65535 and both neighbours of every range bound, prefix lengths 0/8/24/31/32 and 0/64/127/128).", "DESIGN.md §4 C14"),
- "C04": ("bounded-exhaustive enumeration of generated ClientHellos (all permutations of all subsets, GREASE at every position) on the real parser and packet pipelines, reference-model oracle",
-         "ClientHellos are generated from structured descriptions: 7 legacy versions x 8 supported_versions lists x every permutation of every subset (<=5 quick, 6 thorough) of 6 suites incl. 2 GREASE, 98..150-element lists; every permutation of every subset (<=4 quick, 5 thorough) of 17 extensions incl. 2 GREASE extensions, SNI, ALPN, sigalgs, groups; sigalg orders x ALPN lists x SNI. Each is parsed by the real code and JA4/JA4_r/JA4_o/JA4_ro, ja4_a/b/c and the separately reported fields are compared with a reference JA4 computed from the description; a sub-family goes through the stateless packet processor, the stateful TLS pipeline (1 and 2 segments, IPv4/IPv6) and the unified analyzer.",
-         "Trusts the 60-line reference JA4 and sha2 (self-tested against the FIPS vector). ALPN values are restricted to alphanumeric first/last bytes, supported_versions lists always hold a known non-GREASE version, DTLS/QUIC are out of scope; raw (unhashed) rendering of an empty list is not compared.", "DESIGN.md §4 C04"),
- "C19": ("bounded-exhaustive enumeration of timestamp histories under an injected clock on the real TCP pipeline, reference-model oracle per packet",
-         "Histories of 2-4 timestamped segments are replayed on a fresh analyzer under the injected millisecond clock: every integer rate 1..1500 Hz x 5 (7 thorough) intervals x 4 role routes (SYN->data, SYN+ACK->data, data->data each side) x timestamp origin incl. wrap through 2^32 x IPv4/IPv6 with a third steady segment; every interval boundary (24/25/26, 99/100/101 ms, 599999/600000/600001 ms) x rate boundary (0.99/1/1.01 ... 1499/1500/1500.5/1501) with two follow-up segments (no re-evaluation after rejection); the port heuristic over {80,1024,1025,50000}^2 x first-segment flags; both directions of one connection with different clock rates in every interleaving; backward movement (totality). A reference model of the documented rule predicts each per-packet report (frequency grid, days/hours/minutes, wrap days, role, endpoints).",
-         "Needs hook H1 (injectable clock). Both readings of the documented 100 Hz grid are accepted; pairs advancing fewer than 5 ticks and backward movement are checked for totality only; TTL expiry of tracker entries is outside the scope (runs take microseconds).", "DESIGN.md §4 C19"),
-}
+CLAIMED = {k: (v["technique"], v["text"], v["note"], v["design_ref"]) for k, v in json.load(open(os.path.join(V, "tools", "claims.json"))).items()}
 NOT_YET = {}
 props = [json.loads(l) for l in open(os.path.join(V, "properties.jsonl"))]
 hook_commits = subprocess.run(["git", "-C", "/repo", "log", "--format=%H", "--grep=^verif hook"], capture_output=True, text=True).stdout.split()
